@@ -370,3 +370,45 @@ Definition enc_cobs (o : cobs) : list Z :=
   | OTrans b r => 22 :: enc_resb b ++ enc_opt r
   | OClose ok => [23; if ok then 1 else 0]
   end.
+
+(* ---------------------------------------------------------------- several writers on one transport *)
+(* Each writer performs a sequence of atomic socket writes; what reaches the stream is some interleaving of
+   the writers' write calls (Merge).  After fix F18d writePacket holds a lock around its sendall, so the
+   atomic write of a packet is its whole frame; `split_writes` is a writePacket that issues two writes. *)
+Inductive Merge {A : Type} : list (list A) -> list A -> Prop :=
+| merge_nil pss : Forall (fun l => l = []) pss -> Merge pss []
+| merge_step pre x l post out :
+    Merge (pre ++ l :: post) out -> Merge (pre ++ (x :: l) :: post) (x :: out).
+
+(* executable: order[k] = index of the writer whose next write comes k-th *)
+Fixpoint take_from {A} (i : nat) (pss : list (list A)) : option (A * list (list A)) :=
+  match pss, i with
+  | [], _ => None
+  | [] :: _, O => None
+  | (x :: l) :: rest, O => Some (x, l :: rest)
+  | l :: rest, S i' => match take_from i' rest with
+                       | Some (x, rest') => Some (x, l :: rest')
+                       | None => None
+                       end
+  end.
+Fixpoint merge_by {A} (order : list nat) (pss : list (list A)) : option (list A) :=
+  match order with
+  | [] => if forallb (fun l => match l with [] => true | _ => false end) pss then Some [] else None
+  | i :: order' => match take_from i pss with
+                   | Some (x, pss') => match merge_by order' pss' with
+                                       | Some out => Some (x :: out)
+                                       | None => None
+                                       end
+                   | None => None
+                   end
+  end.
+
+Definition split_writes (p : cpx) : list (list Z) := [le_bytes 2 (zlen (c_data p) + 2); wire_data p].
+
+(* correspondence step: the writers' packets, the observed order of frame writes, the observed stream *)
+Definition writers_case (pss : list (list cpx)) (order : list Z) (stream : list Z) : list Z :=
+  match merge_by (map Z.to_nat order) pss with
+  | None => [0]
+  | Some ps => [1; (if zlist_eqb (concat (map frame ps)) stream then 1 else 0)]
+               ++ concat (map enc_res (fst (read_n (length ps) [stream])))
+  end.
